@@ -47,7 +47,7 @@ func (e *env) dump(store string) map[string]string {
 		if i < 0 {
 			continue
 		}
-		n := strings.Trim(strings.TrimSpace(l[i+4:]), `"`)
+		n := world.ListName(l)
 		if store == "R" {
 			if strings.HasPrefix(n, prefix) {
 				names = append(names, n)
